@@ -82,6 +82,8 @@ def main(argv=None):
                                                                      str(k), str(nshards), out, str(timeout)]
             ce = child_env(os.path.join(tmp, 'scratch%d' % k))
             ce.update(extra)
+            if '-bb' in opts:
+                ce['PYTHONWARNINGS'] = 'ignore,error::BytesWarning'      # (child_env silences warnings; this one is the point)
             ce['VMON_SHARD_ENVIRONMENT'] = label
             p = subprocess.Popen(cmd, cwd=env.VERIF_DIR, env=ce, stdout=subprocess.PIPE, stderr=subprocess.STDOUT)
             procs.append((k, p, out))
@@ -138,6 +140,8 @@ def replay(mod, path, tier, seed):
         # the witness was found in an environment slice: replay it in an interpreter started the same way
         opts = [label] if label in ('-bb', '-O') else []
         e = dict(os.environ, VMON_SHARD_ENVIRONMENT=label, PYTHONPATH=env.VERIF_DIR, PYTHONHASHSEED='0')
+        if label == '-bb':
+            e['PYTHONWARNINGS'] = 'ignore,error::BytesWarning'
         if label.startswith('TZ='):
             e['TZ'] = 'EST5EDT,M3.2.0,M11.1.0'
         return subprocess.call([env.PYTHON, '-B'] + opts + ['-m', 'vmon.run', mod.ID, '--tier', tier, '--replay', path], env=e,
